@@ -5,6 +5,7 @@ below the collector add / remove agents and change values) and between them; the
 the schedule in priority order. File arm: the disk is simulated (simkit.simdisk): every
 open/write/close is an event, the run is stopped after every timestep and - crash.midflush - inside
 flushes, and only durable content survives."""
+import types
 import copy
 import os
 import tempfile
@@ -34,7 +35,7 @@ COMPONENTS = {"real": ["ECAgent.Collectors.AgentCollector.collect", "FileCollect
 PROBES = ["empty_record_suppressed", "collector_off_window", "removed_by_higher_priority_same_step",
           "added_by_higher_priority_same_step", "changed_after_collector_turn", "composite_used", "value_zero_recorded",
           "crash_at_flush_boundary", "crash_mid_flush", "real_file", "composite_shared_dict", "empty_string_record", "environment_replaced", "system_removed_next_to_collector", "empty_collection", "empty_flush",
-          "preexisting_content", "two_file_collectors", "buffer_overflow_mid_flush", "falsy_callable_objects_as_functions", "model_with_own_timestep_attribute", "collect_returns_a_value", "write_records_overridden_by_the_user"]
+          "preexisting_content", "two_file_collectors", "buffer_overflow_mid_flush", "falsy_callable_objects_as_functions", "model_with_own_timestep_attribute", "collect_returns_a_value", "write_records_overridden_by_the_user", "composite_result_not_a_dict"]
 TECHNIQUE = "deterministic simulation: population changing on a seeded schedule inside timesteps vs a replaying reference; simulated disk with crash points and the conservation invariant file + held = collected"
 LEVEL_TEXT = ("Seeded search over population-change schedules, collector windows and disk behaviour; after every timestep the "
               "records equal the reference's and earlier records are untouched; for the file collector, after every disk event "
@@ -93,7 +94,7 @@ def gen_agent_arm(rng, tier):
         c = {"id": "AgentCollector" if i == 0 and rng.random() < 0.5 else f"col{i}",
              "prio": rng.choice([None, None, None, 2, 0, -1, -3]),
              "func": rng.choice(["value", "value", "none_for_neg", "always_none", "listed", "even_only"]),
-             "composite": rng.choice([None, None, "dict", "empty", "none", "shared", "shared"]), "ts": rng.random() < 0.4}
+             "composite": rng.choice([None, None, "dict", "empty", "none", "shared", "shared", "proxy", "pairs"]), "ts": rng.random() < 0.4}
         c.update(gen_window(rng, steps))
         collectors.append(c)
     between = script(rng.randint(0, 3))
@@ -167,7 +168,7 @@ class FalsyCall:
 
 
 def composite_ref(kind, pop):
-    if kind in ("dict", "shared"):
+    if kind in ("dict", "shared", "proxy", "pairs"):
         return {"#total": sum(pop.values()), "#n": len(pop)}
     if kind == "empty":
         return {}
@@ -297,6 +298,12 @@ def run_agent_arm(sc, ctx):
                         buf.update(composite_ref("dict", {k: a[Val].v for k, a in agents.items()}))
                         return buf
                     ctx.probe("composite_shared_dict")
+                elif kind_c in ("proxy", "pairs"):
+                    # the composite data comes as a read-only mapping / as key-value pairs: anything dict.update() accepts
+                    def comp(agents, kind_c=kind_c):
+                        d_ = composite_ref("dict", {k: a[Val].v for k, a in agents.items()})
+                        return types.MappingProxyType(d_) if kind_c == "proxy" else list(d_.items())
+                    ctx.probe("composite_result_not_a_dict")
                 else:
                     comp = (lambda agents, kind_c=kind_c: composite_ref(kind_c, {k: a[Val].v for k, a in agents.items()}))
             afn = (lambda a, fn=fn: fn(a[Val].v))
